@@ -204,6 +204,9 @@ static void refuse_to_patch(std::ostream& out, std::ios_base::openmode mode, con
         RejectWriter reject_writer(patch, file, options.reject_format);
         for (const auto& hunk : patch.hunks)
             reject_writer.write_reject_file(hunk);
+
+        // Closing the file does not tell us if what is still buffered could be written.
+        file.flush();
     }
     out << '\n';
 }
